@@ -89,7 +89,12 @@ enum TTy {
 /// Typed, evaluable IR expressions with parameters at the leaves: what a reduction can actually fold.
 struct TreeGen {
     params: Vec<(String, tx3_tir::model::core::Type)>,
+    /// integer literals (and arguments) from the ends of the i128 range as well: sums that overflow in one
+    /// association and not in another
+    extreme: bool,
 }
+
+const EXTREME_INTS: [i128; 9] = [i128::MAX, i128::MAX - 1, i128::MIN, i128::MIN + 1, 1 << 126, -(1 << 126), 10, 1, -1];
 
 impl TreeGen {
     fn param(&mut self, ty: tx3_tir::model::core::Type, rng: &mut Rng) -> tir::Expression {
@@ -114,7 +119,18 @@ impl TreeGen {
         match ty {
             TTy::Int => {
                 if leaf {
+                    if self.extreme && rng.chance(1, 3) {
+                        return E::Number(*rng.pick(&EXTREME_INTS));
+                    }
                     return if rng.bool() { E::Number(rng.below(4) as i128) } else { self.param(Type::Int, rng) };
+                }
+                if self.extreme && rng.chance(1, 3) {
+                    // (pending +- literal) +- literal: the shape in which folding the two literals first changes
+                    // whether an intermediate sum leaves the range
+                    let x = self.param(Type::Int, rng);
+                    let (a, b) = (E::Number(*rng.pick(&EXTREME_INTS)), E::Number(*rng.pick(&EXTREME_INTS)));
+                    let inner = if rng.bool() { op(B::Add(x, a)) } else { op(B::Sub(x, a)) };
+                    return if rng.bool() { op(B::Add(inner, b)) } else { op(B::Sub(inner, b)) };
                 }
                 match rng.below(7) {
                     0 => op(B::Add(self.gen(TTy::Int, depth + 1, rng), self.gen(TTy::Int, depth + 1, rng))),
@@ -168,7 +184,11 @@ impl C07 {
     fn trees(&self, ctx: &mut Ctx, idx: u64, rng: &mut Rng) {
         use tx3_tir::model::core::Type;
         use tx3_tir::reduce::ArgValue;
-        let mut g = TreeGen { params: vec![] };
+        let extreme = idx % 3 == 0;
+        if extreme {
+            ctx.count("trees/extreme-integers");
+        }
+        let mut g = TreeGen { params: vec![], extreme };
         let datum = tir::Expression::List(vec![g.gen(TTy::Int, 0, rng), g.gen(TTy::Bytes, 1, rng), g.gen(TTy::MapIntInt, 1, rng), g.gen(TTy::Int, 0, rng)]);
         let amount = g.gen(TTy::Assets, 0, rng);
         let tx = tir::Tx {
@@ -193,7 +213,7 @@ impl C07 {
             .iter()
             .map(|(n, t)| {
                 (n.clone(), match t {
-                    Type::Int => ArgValue::Int(rng.below(4) as i128),
+                    Type::Int => ArgValue::Int(if extreme && rng.chance(1, 3) { *rng.pick(&EXTREME_INTS) } else { rng.below(4) as i128 }),
                     _ => ArgValue::Bytes(if rng.bool() { vec![rng.below(2) as u8; 28] } else { vec![b'A' + rng.below(2) as u8] }),
                 })
             })
